@@ -48,7 +48,7 @@ class Gen:
         c = r.random()
         if c < 0.3:
             u = M.UNIT[enc]
-            return ["PaddedString", u * r.randint(0, 6), enc]
+            return ["PaddedString", u * r.randint(0, 6) + (r.randrange(u) if r.random() < 0.3 else 0), enc]
         if c < 0.6:
             return ["PascalString", ["name", r.choice(["Byte", "VarInt", "Int16ul"])], enc]
         if c < 0.85 or not tail:
@@ -187,7 +187,7 @@ class Gen:
                               ["Struct", [["p", ["Bytes", g]], ["q", ["BytesInteger", g, True, False]]]]])
             return ["ProcessRotateLeft", amount, g, inner]
         if c < 0.886 and tail and not self.strict and self.fragment == "full":
-            return self.select_family()
+            return self.select_family() if r.random() < 0.5 else self.lazy_family(depth)
         if c < 0.90:
             return ["Optional", self.optional_inner()] if (tail and not self.strict) else ["Hex", self.int_leaf()]
         if c < 0.94:
@@ -214,6 +214,23 @@ class Gen:
         if c < 0.9:
             return ["Select", [["Struct", [["t", ["Const", 1, B]], ["x", ["name", "Int16ub"]]]], ["Struct", [["t", ["Const", 2, B]], ["y", ["Bytes", 3]]]], ["Struct", [["t", B], ["z", ["name", "Int32ub"]]]]]]
         return ["Select", [["Sequence", [[None, ["OneOf", B, [1, 2, 3]]], [None, ["OneOf", B, [1, 2]]]]], ["Sequence", [[None, ["OneOf", B, [1, 2, 3, 4, 5]]], [None, ["Bytes", 2]]]]]]
+
+    def lazy_family(self, depth):
+        """deferred parsing: members are skipped by their actual size (which for length-prefixed members is read from the
+        stream); LazyStruct members do not refer to each other (documented restriction)"""
+        r = self.rng
+        B = ["name", "Byte"]
+        pre = lambda: r.choice([["Prefixed", B, ["Bytes", r.randint(0, 3)], False], ["Prefixed", B, ["name", "GreedyBytes"], False], ["Prefixed", ["name", "Int16ul"], ["name", "Int16ub"], True],
+                                ["PrefixedArray", B, ["name", "Int16ub"]], ["PrefixedArray", ["name", "VarInt"], B], ["PascalString", B, "utf8"], ["Prefixed", ["name", "VarInt"], ["CString", "ascii"], False]])
+        c = r.random()
+        if c < 0.4:
+            return ["LazyArray", r.randint(0, 3), pre() if r.random() < 0.6 else self.nonzero(depth - 1)]
+        if c < 0.75:
+            ms = []
+            for i in range(r.randint(1, 4)):
+                ms.append(["z%d" % i, r.choice([self.fixed_leaf(), pre(), ["CString", "utf8"], ["name", "VarInt"], ["Struct", [["a", B], ["b", pre()]]]])])
+            return ["LazyStruct", ms]
+        return ["Struct", [["h", B], ["z", ["Lazy", r.choice([pre(), self.fixed_leaf(), ["Array", 2, ["name", "Int16ub"]]])]], ["t", B]]]
 
     def optional_inner(self):
         # Optional at the end of a region: alternatives that cannot be confused with "nothing"
@@ -313,8 +330,13 @@ class Gen:
         if c < 0.3 and tail:
             # leftover bits of a partially consumed byte followed by a read-to-end field
             return ["Bitwise", ["Struct", [["w", ["BitsInteger", w, False, False]], ["rest", ["name", "GreedyBytes"]]]]]
-        if c < 0.5 and tail:
+        if c < 0.4 and tail:
             return ["Bitwise", ["Struct", head + [["xs", ["GreedyRange", ["BitsInteger", r.choice([4, 8, 16, 24]), r.random() < 0.5, False]]]]]]
+        if c < 0.45 and tail:
+            return ["Bitwise", ["GreedyRange", ["BitsInteger", r.choice([3, 5, 6, 7, 12]), False, False]]]
+        if c < 0.5 and tail:
+            wa, wb = r.choice([(3, 2), (20, 12), (5, 3), (12, 4)])
+            return ["Bitwise", ["Struct", [["xs", ["GreedyRange", ["BitsInteger", wa, False, False]]], ["tail", ["BitsInteger", wb, False, False]]]]]
         if c < 0.75:
             return ["Bitwise", ["Struct", [["n0", ["name", "Nibble"]], ["f", ["name", "Flag"]], [None, ["Padding", 3]], ["xs", ["Array", ["this", "n0"], ["BitsInteger", r.choice([8, 16]), False, r.random() < 0.3]]]]]]
         return ["Bitwise", ["Struct", [["n0", ["BitsInteger", 3, False, False]], ["v", ["BitsInteger", 13, True, False]], ["d", ["Bytewise", ["Bytes", ["this", "n0"]]]]]]]
